@@ -78,6 +78,7 @@ func Addr(name string) sdk.AccAddress { return sdk.AccAddress(SecpKey(name).PubK
 type DeliverResult struct {
 	Err      error
 	Panicked bool
+	OutOfGas bool // the panic was a gas meter running out
 	PanicVal string
 	Events   sdk.Events
 	Resp     proto.Message // first msg response, nil on error
@@ -100,6 +101,8 @@ func Deliver(ctx sdk.Context, router *baseapp.MsgServiceRouter, cdc codec.Codec,
 				res.PanicVal = fmt.Sprint(r)
 				if _, isOOG := r.(storetypes.ErrorOutOfGas); !isOOG {
 					res.PanicVal += "\n" + string(debug.Stack())
+				} else {
+					res.OutOfGas = true
 				}
 				res.Err = fmt.Errorf("panic: %v", r)
 			}
